@@ -33,7 +33,22 @@ def r14_1(ctx, R):
         for bb, t, fn in direct_sites(b, RE_WAKE):
             n += 1
             if b.path not in drains:
-                ctx.ob("R14.1", b, "wake-outside-drain@%s" % _site_label(b, bb), False, b.loc(bb), "task woken outside the drain function")
+                # licensed only as the exit of a constant per-call budget (work is left over and the call gives way)
+                lic = False
+                for head, body in b.loops().items():
+                    for sb in body:
+                        for tgt, labs in fl.edge_labels(sb).items():
+                            for lab in labs:
+                                if lab[0] == "bool" and lab[1][0] == "binop" and lab[1][1] in ("Gt", "Ge") and lab[2] is True \
+                                        and lab[1][3][0] == "const" and lab[1][2][0] == "multi" and b.dominates(tgt, bb):
+                                    # the counted local is only ever initialised by a constant and incremented by a constant
+                                    l_ = lab[1][2][1]
+                                    defs_ok = all(k_ == "assign" and (fl.rvalue_expr(nd["rv"], db)[0] == "const" or
+                                                                       c13._inc_of_local(fl.rvalue_expr(nd["rv"], db), l_) is not None)
+                                                  for (db, ix, k_, nd) in fl.defs.get(l_, []))
+                                    lic = lic or defs_ok
+                ctx.ob("R14.1", b, "wake-outside-drain@%s" % _site_label(b, bb), lic, b.loc(bb),
+                       "task woken outside the drain function; licensed as a constant-budget exit: %s" % lic)
                 continue
             d = b
             vf = variant_facts(d, fl)
